@@ -418,7 +418,9 @@ theorem collectWatches_super (H : Heap) (L : Limits) (ws : List WatchIn) (c : Ca
     split
     · split
       · exact he
-      · exact ih _ _ e (List.mem_append_left _ he)
+      · split
+        · exact ih _ _ e he
+        · exact ih _ _ e (List.mem_append_left _ he)
     · split
       · exact ih _ _ e he
       · split
